@@ -266,8 +266,12 @@ func TestVerifReplay(t *testing.T) {
 	if assertName == "no-panic" && strings.Contains(output, "REPLAY-PANIC") {
 		ok = true
 	}
-	if strings.Contains(output, "REPLAY-ASSUME-FAILED") {
-		ok = false
+	if i := strings.Index(output, "REPLAY-ASSUME-FAILED"); i >= 0 {
+		// an assumption that fails only after the target assertion has already failed does not matter
+		j := strings.Index(output, "REPLAY-ASSERT-FAILED "+assertName)
+		if j < 0 || j > i {
+			ok = false
+		}
 	}
 	return dir, ok, output
 }
